@@ -443,3 +443,11 @@ def normalise(j: Any) -> Any:
             d["ks"] = sorted(d["ks"], key=_k)
         return d
     return j
+
+
+def strip_ids_public(x: Any) -> Any:
+    if isinstance(x, dict):
+        return {k: (0 if k in ("oid", "doid") else strip_ids_public(v)) for k, v in x.items()}
+    if isinstance(x, list):
+        return [strip_ids_public(v) for v in x]
+    return x
